@@ -19,7 +19,7 @@
 (***************************************************************************)
 EXTENDS Integers, Sequences, FiniteSets, TLC, Json
 
-CONSTANTS MaxLen, Emit
+CONSTANTS MaxLen, Emit, Directed
 
 VARIABLES prog,    \* sequence of instructions [op, inputs, outputs]
           env,     \* sequence of [name, t, known, i, bs, bits]
@@ -104,7 +104,11 @@ BadConsts == {"Native:zz", "0xAAA", "Jubjub:00", "nosuchname"}
 
 \* ---- operands -------------------------------------------------------------
 Recent == IF Len(env) <= 5 THEN env ELSE SubSeq(env, Len(env) - 4, Len(env))
+\* (directed mode - see DirectedNext - works on the most recently bound name only)
 Operands ==
+  IF Directed /\ env # <<>>
+  THEN LET e == env[Len(env)] IN { [s |-> e.name, t |-> e.t, v |-> [known |-> e.known, i |-> e.i, bs |-> e.bs, bits |-> e.bits]] }
+  ELSE
   { [s |-> Recent[i].name, t |-> Recent[i].t, v |-> [known |-> Recent[i].known, i |-> Recent[i].i, bs |-> Recent[i].bs, bits |-> Recent[i].bits]] :
       i \in 1..Len(Recent) }
   \cup ConstMenu
@@ -318,6 +322,15 @@ ABadName ==
 Next == ALoad \/ ALoad2 \/ ABadLoad \/ AMissingWitness \/ ABinary \/ ANeg \/ AModExp \/ AInnerProduct
         \/ AConvert \/ AHash \/ APublish \/ ABadArity \/ ABadName
 Spec == Init /\ [][Next]_vars
+
+\* Directed pipelines, enumerated exhaustively: load one value; one or two unary steps on the value bound last (conversions
+\* between bytes and the other types in both directions, negation, hashing, coordinates); publish the result.  Random
+\* simulation almost never builds a well-typed conversion chain that ends in a publish; this family contains all of them.
+DirectedNext ==
+  \/ (Len(prog) = 0 /\ ALoad)
+  \/ (Len(prog) \in {1, 2} /\ (AConvert \/ ANeg \/ AHash))
+  \/ (Len(prog) \in {2, 3} /\ APublish)
+DirectedSpec == Init /\ [][DirectedNext]_vars
 
 ---------------------------------------------------------------------------
 TypeOK == status \in {"ok", "load_error", "exec_error", "failed", "any"}
